@@ -116,6 +116,14 @@ class ConstEval:
         return v
 
     def class_const(self, mod, cls, name):
+        memo = self.__dict__.setdefault("_cc_memo", {})
+        if (mod, cls, name) not in memo:
+            memo[(mod, cls, name)] = self._class_const(mod, cls, name)
+        v = memo[(mod, cls, name)]
+        # mutable results are handed out as copies so that an interpreter state cannot corrupt the constant
+        return list(v) if isinstance(v, list) and type(self) is ConstEval else v
+
+    def _class_const(self, mod, cls, name):
         key = (mod, cls)
         node, k = self.M.find_const(key, name)
         if node is None:
